@@ -102,6 +102,7 @@ type Snapshot struct {
 	KeyReady  []string `json:"key_ready,omitempty"` // affinity keys k for which KeyAsChannel(k).Ready() is true
 	RegistryDone int   `json:"registry_done"`  // of those, how many are already done
 	PendingOps []string `json:"pending_ops,omitempty"`
+	Parked    int      `json:"parked,omitempty"` // goroutines held at a park-type yield point when the snapshot was taken
 	NowNs     int64    `json:"now_ns"`
 	InFlight  int      `json:"in_flight"` // carrier items not yet delivered
 }
@@ -198,6 +199,7 @@ type Trace struct {
 	Labels      map[string]int `json:"labels,omitempty"`
 	Probe       *ProbeRec     `json:"probe,omitempty"`
 	Fcx         *FcxResult    `json:"fcx,omitempty"`
+	Par         *ParResult    `json:"par,omitempty"`
 	Reg         []*RegObs     `json:"reg,omitempty"`
 	Deadlock    string        `json:"deadlock,omitempty"` // bubble deadlock panic text on exit
 	Aborted     string        `json:"aborted,omitempty"`
